@@ -32,7 +32,7 @@ TNext == /\ \/ l = 0 /\ l' \in {j \in 1..Len(Trace) : j % Chunk = 1}
 
 R == Trace[IF l = 0 THEN 1 ELSE l]
 
-CaseOf(r) == [kind |-> r.c.kind, format |-> r.c.format, mode |-> r.c.mode, np |-> r.c.np, cls |-> r.c.cls, nt |-> r.c.nt]
+CaseOf(r) == [kind |-> r.c.kind, format |-> r.c.format, mode |-> r.c.mode, np |-> r.c.np, cls |-> r.c.cls, nt |-> r.c.nt, arg |-> r.c.arg]
 
 \* set-of-states simulation of the reader machine over the observed events
 RECURSIVE SilentClosure(_, _)
@@ -49,7 +49,7 @@ RunOn(c, S, evs, i) == IF i > Len(evs) \/ S = {} THEN S ELSE RunOn(c, StepOn(c, 
 Accepts(c, evs) == \E s \in RunOn(c, {Start(c)}, evs, 1) : s.res # "run"
 
 \* the line is a case the specification enumerates
-KnownCase == (l > 0 /\ R.k = "case") => CaseOf(R) \in Cases
+KnownCase == (l > 0 /\ R.k = "case") => IsCase(CaseOf(R))
 \* the observation is a complete behaviour of the reader machine (no Panic / Crash / Hang in the alphabet)
 Accepted  == (l > 0 /\ R.k = "case") => Accepts(CaseOf(R), R.evs)
 
